@@ -42,6 +42,15 @@ Inductive opk :=
 | Instantiate.
 Record op := { op_p : nat; op_k : opk }.
 
+(* ---- which of the proposed repairs the tree under test contains (all false = the pinned tree) ----
+   fx_pc  fixes/C09-print-config-pending.patch   parse_args drops a left-over request in a `finally`
+   fx_sh  fixes/C09-lazy-print-shtab-key.patch   the lazily added --print_shtab action is no configuration key
+                                                 (filter_default_actions hides it, like --help / --print_config)
+   fx_hs  fixes/C09-class-help-skip-shared.patch the class help works on a copy of sub_add_kwargs *)
+Record fixes := { fx_pc : bool; fx_sh : bool; fx_hs : bool }.
+Definition pinned : fixes := {| fx_pc := false; fx_sh := false; fx_hs := false |}.
+Definition repaired : fixes := {| fx_pc := true; fx_sh := true; fx_hs := true |}.
+
 (* ---- carried state ---- *)
 Record flags := { f_sn : bool; f_sd : bool; f_yc : bool }.
 Inductive pending := PNone | PFull (key : option str) (fl : flags) | PBroken (fl : flags).
@@ -361,7 +370,7 @@ Definition help_rest_ok (cname : str) (ps : list (str * kind)) (rest : list tok)
 Record scan_out := { so_res : sres; so_c : ictx; so_unk : bool; so_pend : pending; so_chosen : option str;
                      so_cv : cvars; so_subargs : option (str * list tok); so_hs : bool }.
 
-Fixpoint scan_root (D : decl) (i : nat) (hs : bool) (toks : list tok) (c : ictx) (unk : bool)
+Fixpoint scan_root (fx : fixes) (D : decl) (i : nat) (hs : bool) (toks : list tok) (c : ictx) (unk : bool)
   (pend : pending) (cv : cvars) : scan_out :=
   let stop o := {| so_res := SStop o; so_c := c; so_unk := unk; so_pend := pend; so_chosen := None;
                    so_cv := cv; so_subargs := None; so_hs := hs |} in
@@ -374,24 +383,26 @@ Fixpoint scan_root (D : decl) (i : nat) (hs : bool) (toks : list tok) (c : ictx)
       | TFlag n =>
           if str_eqb n s_help then stop (OHelp [])
           else if str_eqb n s_print_config && pd_cfg pd
-               then scan_root D i hs r c unk (PFull None no_flags) cv
-               else scan_root D i hs r c true pend cv
+               then scan_root fx D i hs r c unk (PFull None no_flags) cv
+               else scan_root fx D i hs r c true pend cv
       | TOpt n v =>
           if str_eqb n s_print_config && pd_cfg pd then
             match parse_flags (split_comma v []) no_flags with
-            | Some fl => scan_root D i hs r c unk (PFull None fl) cv
+            | Some fl => scan_root fx D i hs r c unk (PFull None fl) cv
             | None => stop (OErr EPre)
             end
           else
           match is_suffix_help n, (match is_suffix_help n with Some h => find_cls h pd | None => None end) with
           | Some h, Some co =>
-              (* _ActionHelpClassPath.print_help; READS help_skip through the class-level dict *)
-              let hs' := hs || co_callable co in
-              match class_params hs' v with
+              (* _ActionHelpClassPath.print_help; READS help_skip through the class-level dict and WRITES it
+                 there; repaired: works on a copy, nothing shared is read or written *)
+              let sk := if fx_hs fx then co_callable co else hs || co_callable co in
+              let hs' := if fx_hs fx then hs else sk in
+              match class_params sk v with
               | None => stop (OErr EPre)
               | Some ps =>
                   match r with
-                  | [] => {| so_res := SStop (OHelpCls hs'); so_c := c; so_unk := unk; so_pend := pend;
+                  | [] => {| so_res := SStop (OHelpCls sk); so_c := c; so_unk := unk; so_pend := pend;
                              so_chosen := None; so_cv := cv; so_subargs := None; so_hs := hs' |}
                   | _ =>
                       (* uses parser.args; the throw-away parser's parse_args sets the context variables *)
@@ -403,20 +414,21 @@ Fixpoint scan_root (D : decl) (i : nat) (hs : bool) (toks : list tok) (c : ictx)
               end
           | _, _ =>
               match apply_local pd [] c n v with
-              | IOk c' => scan_root D i hs r c' unk pend cv
+              | IOk c' => scan_root fx D i hs r c' unk pend cv
               | IBad => stop (OErr EPre)
-              | IUnknown => scan_root D i hs r c true pend cv
+              | IUnknown => scan_root fx D i hs r c true pend cv
               end
           end
       | TCfg items =>
           if pd_cfg pd then
             (* ActionConfigFile.apply_config -> parser.parse_string(defaults=False, _skip_validation)
                -> _parse_common -> print_config_if_requested: the request is consumed HERE, with the
-               content of the config alone.  Inside parse_args --print_shtab exists already. *)
-            match apply_items (apply_item D true) UKeep c items with
+               content of the config alone.  Inside parse_args --print_shtab exists already (repaired: it is
+               no configuration key). *)
+            match apply_items (apply_item D (negb (fx_sh fx))) UKeep c items with
             | None => stop (OErr EPre)
             | Some c' =>
-                let hc := match apply_items (apply_item D true) UKeep ic0 items with
+                let hc := match apply_items (apply_item D (negb (fx_sh fx))) UKeep ic0 items with
                           | Some x => x | None => ic0 end in
                 let here := ic_mention hc in
                 match consume D pend (fun x => mem_str x here)
@@ -424,13 +436,13 @@ Fixpoint scan_root (D : decl) (i : nat) (hs : bool) (toks : list tok) (c : ictx)
                 | Some (o, pend', cv') =>
                     {| so_res := SStop o; so_c := c; so_unk := unk; so_pend := pend'; so_chosen := None;
                        so_cv := cv'; so_subargs := None; so_hs := hs |}
-                | None => scan_root D i hs r c' unk pend cv
+                | None => scan_root fx D i hs r c' unk pend cv
                 end
             end
-          else scan_root D i hs r c true pend cv
+          else scan_root fx D i hs r c true pend cv
       | TPos n =>
           match d_subs D with
-          | [] => scan_root D i hs r c true pend cv
+          | [] => scan_root fx D i hs r c true pend cv
           | _ =>
               match alookup n (d_subs D) with
               | None => stop (OErr EPre)                      (* invalid choice *)
@@ -476,41 +488,37 @@ Definition parse_common (D : decl) (pend : pending) (chosen : option str) (c : i
       end
   end.
 
-Definition exec_items (D : decl) (v : view) (unknown_ok : umode) (items : list (str * str)) : out * writes :=
-  match apply_items (apply_item D (v_shtab v)) unknown_ok ic0 items with
+Definition exec_items (fx : fixes) (D : decl) (v : view) (unknown_ok : umode) (items : list (str * str)) : out * writes :=
+  match apply_items (apply_item D (v_shtab v && negb (fx_sh fx))) unknown_ok ic0 items with
   | None => (OErr EPre, keep v)
   | Some c =>
       let '(o, pend, cv) := parse_common D (v_pending v) None c (v_cv v) in
       (o, {| w_pending := pend; w_shtab := v_shtab v; w_help_skip := v_help_skip v; w_cv := cv; w_args := [] |})
   end.
 
-(* fx = the proposed fix (fixes/C09-print-config-pending.patch): a parse_args that does not return
-   normally discards the request.  fx = false is the pinned tree. *)
-Definition exec (fx : bool) (D : decl) (i : nat) (v : view) (k : opk) : out * writes :=
+(* fx_pc: whatever way parse_args is left, no request survives it (on a normal return there is none anyway:
+   _parse_common has consumed it).  fx = pinned is the pinned tree. *)
+Definition exec (fx : fixes) (D : decl) (i : nat) (v : view) (k : opk) : out * writes :=
   match k with
   | PArgs argv =>
       (* handle_completions adds --print_shtab; self.args = argv; parse_kwargs and subclass_arg_parser set *)
       let cv0 := {| cv_pk := Some (None, true); cv_sap := Some (LP i []); cv_dk := cv_dk (v_cv v) |} in
-      let so := scan_root D i (v_help_skip v) argv ic0 false (v_pending v) cv0 in
+      let so := scan_root fx D i (v_help_skip v) argv ic0 false (v_pending v) cv0 in
       let args := ([], argv) :: match so_subargs so with Some sa => [sa] | None => [] end in
       let fin o pend cv :=
-        (o, {| w_pending := pend; w_shtab := true; w_help_skip := so_hs so; w_cv := cv; w_args := args |}) in
-      let abort o pend cv := fin o (if fx then PNone else pend) cv in
+        (o, {| w_pending := if fx_pc fx then PNone else pend; w_shtab := true; w_help_skip := so_hs so; w_cv := cv;
+               w_args := args |}) in
       match so_res so with
-      | SStop (OPrint key fl n) => fin (OPrint key fl n) (so_pend so) (so_cv so)
-      | SStop o => abort o (so_pend so) (so_cv so)
+      | SStop o => fin o (so_pend so) (so_cv so)
       | SGo =>
-          if so_unk so then abort (OErr EPre) (so_pend so) (so_cv so)
+          if so_unk so then fin (OErr EPre) (so_pend so) (so_cv so)
           else
             let '(o, pend, cv) := parse_common D (so_pend so) (so_chosen so) (so_c so) (so_cv so) in
-            match o with
-            | OOk _ | OPrint _ _ _ => fin o pend cv
-            | _ => abort o pend cv
-            end
+            fin o pend cv
       end
-  | PObject items => exec_items D v UKeep items
-  | PString items => exec_items D v UKeep items
-  | PEnv items => exec_items D v UIgnore items
+  | PObject items => exec_items fx D v UKeep items
+  | PString items => exec_items fx D v UKeep items
+  | PEnv items => exec_items fx D v UIgnore items
   | GetDefaults => (OOk false, keep v)
   | Dump corrupt sn sd sv =>
       let cvd f := {| cv_pk := cv_pk (v_cv v); cv_sap := cv_sap (v_cv v); cv_dk := f (cv_dk (v_cv v)) |} in
@@ -551,11 +559,11 @@ Definition decl_of (Ds : list decl) (i : nat) : decl :=
   nth i Ds {| d_root := {| pd_cfg := false; pd_opts := []; pd_req := []; pd_cls := [] |};
               d_subreq := false; d_subs := [] |}.
 
-Definition step (fx : bool) (Ds : list decl) (s : state) (o : op) : state * out :=
+Definition step (fx : fixes) (Ds : list decl) (s : state) (o : op) : state * out :=
   let '(r, w) := exec fx (decl_of Ds (op_p o)) (op_p o) (view_of s (op_p o)) (op_k o) in
   (commit s (op_p o) w, r).
 
-Definition run (fx : bool) (Ds : list decl) (s : state) (ops : list op) : state :=
+Definition run (fx : fixes) (Ds : list decl) (s : state) (ops : list op) : state :=
   fold_left (fun s o => fst (step fx Ds s o)) ops s.
 
 (* ---- the guard: which part of the carried state the next call would read and find changed ---- *)
@@ -576,9 +584,9 @@ Definition op_has_clshelp (k : opk) : bool :=
 (* 0 = inside the guard; 1 = a print_config request is pending on the target parser;
    2 = the call names the key print_shtab on a parser that has acquired --print_shtab;
    3 = a class help is requested after a Callable-typed class help wrote the class-level dict *)
-Definition guard_class (s : state) (o : op) : N :=
+Definition guard_class (fx : fixes) (s : state) (o : op) : N :=
   if negb (is_pnone (ps_pending (get_ps s (op_p o)))) then 1%N
-  else if ps_shtab (get_ps s (op_p o)) && op_mentions_shtab (op_k o) then 2%N
+  else if negb (fx_sh fx) && ps_shtab (get_ps s (op_p o)) && op_mentions_shtab (op_k o) then 2%N
   else if st_help_skip s && op_has_clshelp (op_k o) then 3%N
   else 0%N.
-Definition in_guard (s : state) (o : op) : bool := N.eqb (guard_class s o) 0.
+Definition in_guard (fx : fixes) (s : state) (o : op) : bool := N.eqb (guard_class fx s o) 0.
